@@ -213,14 +213,12 @@ def _peg_lenient(op):
     return _agree(op) and not _acc(op) and _peg_acc(op)
 
 
-def c06_peg_lone_or_trailing_separator(op, impl, model, args):
-    """PEG grammar accepts a separator without elements (`[,]`, `{,}`, `f(,)`, `function(,)`), an
-    empty bind list (`local ; e`) and a trailing comma after local binds"""
+def c06_local_trailing_comma(op, impl, model, args):
+    """PEG grammar (and the rowan parser, whose own test `local_method` pins it) accept a trailing
+    comma after the binds of a local (`local a = 1, ; a`); the default parser and the grammar reject"""
     s = op.get("src", "")
-    return _peg_lenient(op) and re.search(
-        r"[\[{(]" + _TRIVIA + r",|\blocal" + _TRIVIA + r";|," + _TRIVIA + r";|\blocal" + _TRIVIA + r",", s) is not None \
-        and re.match(r"(unexpected ','|expected field name, got ','|expected identifier, got (';'|',')|expected identifier, got '\)')",
-                     op.get("ir_msg", "")) is not None
+    return _peg_lenient(op) and re.search(r"," + _TRIVIA + r";", s) is not None \
+        and re.match(r"expected identifier, got ';'", op.get("ir_msg", "")) is not None
 
 
 def c06_peg_number_leading_zero(op, impl, model, args):
